@@ -13,9 +13,11 @@ import (
 	"encoding/json"
 	"flag"
 	"fmt"
+	"math"
 	"os"
 	"path/filepath"
 	"sort"
+	"strconv"
 	"strings"
 	"time"
 
@@ -69,7 +71,61 @@ type Case struct {
 	Kind    string // list | get
 	Format  string
 	StartNs int64 // list: math.MinInt64 = absent
-	EndNs   int64 // list: end (absent = MinInt64); get: start+duration
+	EndNs   int64 // list: end (absent = MinInt64); get: start+duration (saturated at MaxInt64 when the sum is not representable)
+
+	// "size of the requested window" dimension (zero values = one of the windows of the basic grid)
+	Win    string // label of the window size ("" = basic grid)
+	DurNs  int64  // requested duration (get) / end-start (list); the end instant itself may not be representable in ns
+	DurRaw string // get: literal duration parameter (when it is not the decimal seconds of DurNs)
+	EndMax bool   // list: end = the largest instant the parameter parser accepts (year 9999)
+	At     string // what the start is ("seg-1ns", "seg", "seg+1ns", "grid")
+}
+
+// the largest instant time.Parse(time.RFC3339) accepts (4-digit years)
+var listEndMax = time.Date(9999, 12, 31, 23, 59, 59, 999999999, time.UTC)
+
+func satAdd(a, b int64) int64 {
+	if b > 0 && a > math.MaxInt64-b {
+		return math.MaxInt64
+	}
+	return a + b
+}
+
+// maxFloatSeconds returns the largest decimal number of seconds that the duration parser of
+// /get (seconds as float64, multiplied by 1e9 and converted to time.Duration) turns into a
+// representable duration, and that duration.
+func maxFloatSeconds() (string, int64) {
+	f := float64(math.MaxInt64) / float64(time.Second)
+	for f*float64(time.Second) >= float64(math.MaxInt64) { // float64(MaxInt64) == 2^63: not representable
+		f = math.Nextafter(f, 0)
+	}
+	return strconv.FormatFloat(f, 'f', -1, 64), int64(f * float64(time.Second))
+}
+
+// winSize is one size of the requested window.
+type winSize struct {
+	Label string
+	DurNs int64
+	Raw   string
+}
+
+// windowSizes is the alphabet of the "size of the requested window" dimension for corpus k
+// (besides the windows of the basic grid and "up to 1 ns past the end of the recording", which
+// depends on the start).
+func windowSizes(k *KCorpus) []winSize {
+	recStart, recEnd := k.Spans[0].StartNs, k.Spans[0].EndNs
+	for _, sp := range k.Spans {
+		recStart, recEnd = min(recStart, sp.StartNs), max(recEnd, sp.EndNs)
+	}
+	h := int64(time.Hour)
+	fs, fns := maxFloatSeconds()
+	return []winSize{
+		{"rec+1ns", recEnd - recStart + 1, ""},
+		{"1h", h, ""}, {"24h", 24 * h, ""}, {"28h", 28 * h, ""}, {"29h", 29 * h, ""}, {"48h", 48 * h, ""},
+		{"60h", 60 * h, ""}, {"1000h", 1000 * h, ""},
+		{"max-seconds", fns, fs},                              // the largest value in the documented format (seconds)
+		{"max-go", math.MaxInt64, "2562047h47m16.854775807s"}, // the largest value in the deprecated Go format
+	}
 }
 
 const absent = int64(-1 << 63)
@@ -93,10 +149,12 @@ type Result struct {
 	Debug string `json:"debug,omitempty"`
 }
 
-func corpora(thorough bool) []reclib.History {
+// corpora returns the recording histories; light[i] = corpus i exists for its track time scales
+// (basic grid over its structural boundaries only, full "size of the window" dimension).
+func corpora(thorough bool) (hs []reclib.History, light []bool) {
 	b := reclib.NewBuilder(1)
 	ms := time.Millisecond
-	hs := []reclib.History{
+	hs = []reclib.History{
 		{Name: "video+audio, 5 segments, 1.3 s", PartDuration: 100 * ms, SegmentDuration: 250 * ms,
 			Sessions: []reclib.Session{b.Build(reclib.SessionOpts{Video: true, Audio: true, PTS0: 2 * time.Second,
 				VideoPeriod: 50 * ms, VideoCount: 27, GOP: 5, AudioCount: 58, VideoSize: 20, AudioSize: 6})}},
@@ -123,7 +181,19 @@ func corpora(thorough bool) []reclib.History {
 		hs = append(hs, reclib.History{Name: "audio only, 4 segments", PartDuration: 100 * ms, SegmentDuration: 300 * ms,
 			Sessions: []reclib.Session{b.Build(reclib.SessionOpts{Audio: true, PTS0: 1 * time.Second, AudioCount: 50, AudioSize: 9})}})
 	}
-	return hs
+	light = make([]bool, len(hs))
+	// track time scales: 90000 and 44100 above; 48000 and 8000 here
+	hs = append(hs,
+		reclib.History{Name: "video (90 kHz) + 48 kHz audio, 4 segments", PartDuration: 100 * ms, SegmentDuration: 250 * ms,
+			Sessions: []reclib.Session{b.Build(reclib.SessionOpts{Video: true, Audio: true, AudioRate: 48000, PTS0: 3 * time.Second,
+				VideoPeriod: 40 * ms, VideoCount: 22, GOP: 6, AudioCount: 40, VideoSize: 20, AudioSize: 6})}},
+		reclib.History{Name: "8 kHz audio only, two sessions with a gap", PartDuration: 100 * ms, SegmentDuration: 300 * ms,
+			Sessions: []reclib.Session{
+				b.Build(reclib.SessionOpts{Audio: true, AudioRate: 8000, PTS0: 2 * time.Second, AudioCount: 10, AudioSize: 9}),
+				b.Build(reclib.SessionOpts{Audio: true, AudioRate: 8000, Start: 3 * time.Second, PTS0: 7 * time.Second, AudioCount: 8, AudioSize: 9}),
+			}})
+	light = append(light, true, true)
+	return hs, light
 }
 
 func ticksToNs(t int64, scale int64) int64 {
@@ -182,10 +252,12 @@ func uniqSorted(v []int64) []int64 {
 	return out
 }
 
-// buildCases enumerates the windows of a corpus.
-func buildCases(ki int, k *KCorpus, thorough bool) []Case {
-	const eps = int64(100 * time.Microsecond) // well beyond one tick of either track (11 / 23 us)
-	var bounds []int64                         // sample boundaries
+// buildCases enumerates the windows of a corpus: the basic grid and the "size of the requested
+// window" dimension. light = the corpus exists for its track time scales: its basic grid uses
+// the structural boundaries only (its sample boundaries are used by the size dimension).
+func buildCases(ki int, k *KCorpus, thorough, light bool) (basic, sized []Case) {
+	const eps = int64(100 * time.Microsecond) // well beyond one tick of the 90 / 48 / 44.1 kHz tracks (11 / 21 / 23 us)
+	var bounds []int64                        // sample boundaries
 	for _, s := range k.Samples {
 		if thorough || s.Video || len(k.Samples) < 80 || s.Unit%3 == 0 {
 			bounds = append(bounds, s.AbsNs)
@@ -196,16 +268,6 @@ func buildCases(ki int, k *KCorpus, thorough bool) []Case {
 	}
 	bounds = append(bounds, k.SegNs...)
 	bounds = uniqSorted(bounds)
-	var pts []int64 // start candidates
-	for _, b := range bounds {
-		pts = append(pts, b-eps, b, b+eps)
-	}
-	for i := 0; i+1 < len(bounds); i++ {
-		pts = append(pts, (bounds[i]+bounds[i+1])/2) // mid-sample (+1/2 sample)
-	}
-	first, last := bounds[0], bounds[len(bounds)-1]
-	pts = append(pts, first-int64(time.Second), first-int64(30*time.Millisecond), last+int64(30*time.Millisecond), last+int64(time.Second))
-	pts = uniqSorted(pts)
 
 	// ends "reaching each boundary": structural boundaries (segments, spans) and the next sample boundaries
 	var structural []int64
@@ -215,8 +277,30 @@ func buildCases(ki int, k *KCorpus, thorough bool) []Case {
 	}
 	structural = uniqSorted(structural)
 
-	var cases []Case
-	for _, s := range pts {
+	var pts []int64 // start candidates of the basic grid
+	gridBounds := bounds
+	if light {
+		gridBounds = structural
+	}
+	for _, b := range gridBounds {
+		pts = append(pts, b-eps, b, b+eps)
+	}
+	for i := 0; i+1 < len(gridBounds); i++ {
+		pts = append(pts, (gridBounds[i]+gridBounds[i+1])/2) // mid-sample (+1/2 sample)
+	}
+	first, last := bounds[0], bounds[len(bounds)-1]
+	pts = append(pts, first-int64(time.Second), first-int64(30*time.Millisecond), last+int64(30*time.Millisecond), last+int64(time.Second))
+	pts = uniqSorted(pts)
+
+	seen := map[string]bool{}
+	add := func(to *[]Case, c Case) {
+		d := describe(c)
+		if !seen[d] {
+			seen[d] = true
+			*to = append(*to, c)
+		}
+	}
+	gridEnds := func(s int64) []int64 {
 		var ends []int64
 		ends = append(ends, s+int64(50*time.Microsecond), s+int64(time.Hour))
 		n := 0
@@ -231,13 +315,17 @@ func buildCases(ki int, k *KCorpus, thorough bool) []Case {
 				ends = append(ends, b-eps, b, b+eps)
 			}
 		}
-		ends = uniqSorted(ends)
-		for _, e := range ends {
+		return uniqSorted(ends)
+	}
+	formats := []string{"fmp4", "mp4"}
+
+	for _, s := range pts {
+		for _, e := range gridEnds(s) {
 			if e <= s {
 				continue
 			}
-			for _, f := range []string{"fmp4", "mp4"} {
-				cases = append(cases, Case{Corpus: ki, Kind: "get", Format: f, StartNs: s, EndNs: e})
+			for _, f := range formats {
+				add(&basic, Case{Corpus: ki, Kind: "get", Format: f, StartNs: s, EndNs: e})
 			}
 		}
 	}
@@ -253,17 +341,109 @@ func buildCases(ki int, k *KCorpus, thorough bool) []Case {
 	}
 	lpts = append(lpts, first-int64(time.Second), last+int64(time.Second))
 	lpts = uniqSorted(lpts)
-	cases = append(cases, Case{Corpus: ki, Kind: "list", StartNs: absent, EndNs: absent})
+	add(&basic, Case{Corpus: ki, Kind: "list", StartNs: absent, EndNs: absent})
 	for _, s := range lpts {
-		cases = append(cases, Case{Corpus: ki, Kind: "list", StartNs: s, EndNs: absent})
-		cases = append(cases, Case{Corpus: ki, Kind: "list", StartNs: absent, EndNs: s})
+		add(&basic, Case{Corpus: ki, Kind: "list", StartNs: s, EndNs: absent})
+		add(&basic, Case{Corpus: ki, Kind: "list", StartNs: absent, EndNs: s})
 		for _, e := range lpts {
 			if e > s {
-				cases = append(cases, Case{Corpus: ki, Kind: "list", StartNs: s, EndNs: e})
+				add(&basic, Case{Corpus: ki, Kind: "list", StartNs: s, EndNs: e})
 			}
 		}
 	}
-	return cases
+
+	// ---- the "size of the requested window" dimension
+	//
+	// start instants: exactly the start of every segment (of every span), 1 ns before and after
+	// it; every (selected) sample boundary, every span edge, the middle of every segment and gap
+	// (thorough: every mid-sample point) and the points outside the recording of the basic grid.
+	type startPt struct {
+		ns int64
+		at string
+	}
+	var segPts, wpts []startPt
+	isSeg := map[int64]bool{}
+	for _, g := range k.SegNs {
+		segPts = append(segPts, startPt{g - 1, "seg-1ns"}, startPt{g, "seg"}, startPt{g + 1, "seg+1ns"})
+		isSeg[g-1], isSeg[g], isSeg[g+1] = true, true, true
+	}
+	wpts = append(wpts, segPts...)
+	var grid []int64
+	grid = append(grid, bounds...)
+	mids := structural // quick: one point in the middle of every segment / gap
+	if thorough {
+		mids = bounds // every mid-sample point
+	}
+	for i := 0; i+1 < len(mids); i++ {
+		grid = append(grid, (mids[i]+mids[i+1])/2)
+	}
+	grid = append(grid, first-int64(time.Second), first-int64(30*time.Millisecond), last+int64(30*time.Millisecond))
+	for _, g := range uniqSorted(grid) {
+		if !isSeg[g] {
+			wpts = append(wpts, startPt{g, "grid"})
+		}
+	}
+	sizes := windowSizes(k)
+	recEnd := k.Spans[0].EndNs
+	for _, sp := range k.Spans {
+		recEnd = max(recEnd, sp.EndNs)
+	}
+	for _, sp := range wpts {
+		ws := sizes
+		if sp.ns < recEnd {
+			ws = append([]winSize{{"to-end+1ns", recEnd - sp.ns + 1, ""}}, sizes...)
+		}
+		for _, w := range ws {
+			for _, f := range formats {
+				add(&sized, Case{Corpus: ki, Kind: "get", Format: f, StartNs: sp.ns, EndNs: satAdd(sp.ns, w.DurNs),
+					Win: w.Label, DurNs: w.DurNs, DurRaw: w.Raw, At: sp.at})
+			}
+		}
+	}
+	// the segment starts +-1 ns also with every end of the basic grid
+	for _, sp := range segPts {
+		for _, e := range gridEnds(sp.ns) {
+			if e <= sp.ns {
+				continue
+			}
+			for _, f := range formats {
+				add(&sized, Case{Corpus: ki, Kind: "get", Format: f, StartNs: sp.ns, EndNs: e, Win: "grid", DurNs: e - sp.ns, At: sp.at})
+			}
+		}
+	}
+	// list: every start of {segment start, +-1 ns} and the structural points of the basic grid, with
+	// end = start + every window size / the largest instant the parser accepts / every end of the
+	// basic grid (segment starts only); (no start, end = segment start +-1 ns)
+	lstarts := append([]startPt{}, segPts...)
+	for _, b := range structural {
+		for _, g := range []int64{b - eps, b, b + eps} {
+			if !isSeg[g] {
+				lstarts = append(lstarts, startPt{g, "grid"})
+			}
+		}
+	}
+	lstarts = append(lstarts, startPt{first - int64(time.Second), "grid"})
+	for _, sp := range lstarts {
+		for _, w := range sizes {
+			if w.Label == "max-seconds" {
+				continue // a get-only notion; max-go gives start + MaxInt64 ns
+			}
+			add(&sized, Case{Corpus: ki, Kind: "list", StartNs: sp.ns, EndNs: satAdd(sp.ns, w.DurNs), Win: w.Label, DurNs: w.DurNs, At: sp.at})
+		}
+		add(&sized, Case{Corpus: ki, Kind: "list", StartNs: sp.ns, EndNs: math.MaxInt64, Win: "max-instant", EndMax: true, At: sp.at})
+		if sp.at == "grid" {
+			continue
+		}
+		add(&sized, Case{Corpus: ki, Kind: "list", StartNs: sp.ns, EndNs: absent, Win: "grid", At: sp.at})
+		add(&sized, Case{Corpus: ki, Kind: "list", StartNs: absent, EndNs: sp.ns, Win: "grid", At: sp.at})
+		for _, e := range lpts {
+			if e > sp.ns {
+				add(&sized, Case{Corpus: ki, Kind: "list", StartNs: sp.ns, EndNs: e, Win: "grid", At: sp.at})
+			}
+		}
+	}
+	add(&sized, Case{Corpus: ki, Kind: "list", StartNs: absent, EndNs: math.MaxInt64, Win: "max-instant", EndMax: true, At: "grid"})
+	return basic, sized
 }
 
 func main() {
@@ -275,7 +455,11 @@ func main() {
 	r.Rule = "corpora recorded by the real recorder; windows: every start in {sample/part/segment/span boundary} x {-100us, 0, +100us, mid-sample} " +
 		"plus points outside, every end in {start+50us, next 3 sample boundaries +-100us, every later segment/span boundary (-100us, 0, +100us), +1h}, " +
 		"both get formats; list: (start, end) over structural boundaries x {0, +-100us, +-7ms} and a spread of sample boundaries, each optional. " +
-		"distinct = (corpus, request kind, status, number of spans | per track: pre-roll count, in-window count, first/last in-window sample class)"
+		"Size of the requested window: every start in {start of every segment, 1 ns before / after it, every sample boundary, span edge, middle of every segment and gap (thorough: every mid-sample point), points outside} x " +
+		"duration in {up to 1 ns past the end of the recording, length of the recording + 1 ns, 1 h, 24 h, 28 h, 29 h, 48 h, 60 h, 1000 h, the largest value the parser accepts (seconds and Go format)}, " +
+		"segment starts +-1 ns also x every end of the basic grid; list: the same starts (structural ones) x end = start + every size / year 9999. " +
+		"Track time scales 90000, 48000, 44100, 8000. " +
+		"distinct = (corpus, request kind, status, number of spans | per track: pre-roll count, in-window count, first/last in-window sample class | window size, kind of start)"
 
 	base, err := reclib.TempDir("c29")
 	if err != nil {
@@ -286,7 +470,9 @@ func main() {
 	recRoot := filepath.Join(base, "rec")
 
 	corpus := &Corpus{}
-	for ki, h := range corpora(r.Thorough()) {
+	var basicCases, sizedCases []Case
+	hists, light := corpora(r.Thorough())
+	for ki, h := range hists {
 		path := fmt.Sprintf("k%d", ki)
 		dir := filepath.Join(recRoot, path)
 		_ = os.MkdirAll(dir, 0o755)
@@ -312,10 +498,24 @@ func main() {
 		}
 		k := buildK(h.Name, path, h, segs)
 		corpus.K = append(corpus.K, k)
-		cs := buildCases(len(corpus.K)-1, &corpus.K[len(corpus.K)-1], r.Thorough())
-		corpus.Cases = append(corpus.Cases, cs...)
-		r.Set(fmt.Sprintf("corpus_%d", ki), fmt.Sprintf("%s: %d segments, %d samples, %d spans, %d requests", h.Name, len(segs), len(k.Samples), len(k.Spans), len(cs)))
+		bc, sc := buildCases(len(corpus.K)-1, &corpus.K[len(corpus.K)-1], r.Thorough(), light[ki])
+		basicCases = append(basicCases, bc...)
+		sizedCases = append(sizedCases, sc...)
+		scales := map[int64]bool{}
+		for _, sm := range k.Samples {
+			scales[sm.Scale] = true
+		}
+		var sl []int
+		for sc := range scales {
+			sl = append(sl, int(sc))
+		}
+		sort.Ints(sl)
+		r.Set(fmt.Sprintf("corpus_%d", ki), fmt.Sprintf("%s: %d segments, %d samples, %d spans, time scales %s, %d requests of the basic grid + %d of the window-size dimension",
+			h.Name, len(segs), len(k.Samples), len(k.Spans), joinInts(sl), len(bc), len(sc)))
 	}
+	// the window-size dimension is scheduled first (each part in spreading order)
+	corpus.Cases = append(append([]Case{}, sizedCases...), basicCases...)
+	nSized := len(sizedCases)
 	{
 		f, err2 := os.Create(filepath.Join(base, "corpus.gob"))
 		if err2 != nil {
@@ -351,6 +551,7 @@ func main() {
 			}
 		}
 		corpus.Cases = cs
+		nSized = 0
 		f, _ := os.Create(filepath.Join(base, "corpus.gob"))
 		_ = gob.NewEncoder(f).Encode(corpus)
 		f.Close()
@@ -360,9 +561,19 @@ func main() {
 	if *flagLimit > 0 && *flagLimit < n {
 		n = *flagLimit
 	}
-	stride := 7919
-	for gcd(stride, total) != 1 {
-		stride++
+	coprime := func(n int) int {
+		st := 7919
+		for n > 0 && gcd(st, n) != 1 {
+			st++
+		}
+		return st
+	}
+	strideS, strideB := coprime(nSized), coprime(total-nSized)
+	order := func(k int) int {
+		if k < nSized {
+			return int(int64(k) * int64(strideS) % int64(nSized))
+		}
+		return nSized + int(int64(k-nSized)*int64(strideB)%int64(total-nSized))
 	}
 	deadline := time.Now().Add(100 * time.Second)
 	if r.Thorough() {
@@ -372,12 +583,16 @@ func main() {
 		deadline = time.Now().Add(time.Duration(*flagBudget) * time.Second)
 	}
 	kinds := map[string]int{}
+	wins := map[string]int{}
 	for _, c := range corpus.Cases {
 		kinds[c.Kind+c.Format]++
+		if c.Win != "" {
+			wins[c.Kind+" "+c.Win]++
+		}
 	}
 	handed, err := reclib.RunPool(reclib.PoolOpts{Workers: *flagWorkers, Arg: base, CaseTimeout: 60 * time.Second, Deadline: deadline,
 		ExtraArgs: []string{"-tier", r.Tier},
-		Order:     func(k int) int { return int(int64(k) * int64(stride) % int64(total)) }}, n, func(cr reclib.CaseResult) {
+		Order:     order}, n, func(cr reclib.CaseResult) {
 		r.Eval(1)
 		cs := corpus.Cases[cr.Index]
 		rep := map[string]any{"corpus": corpus.K[cs.Corpus].Name, "request": describe(cs)}
@@ -411,16 +626,28 @@ func main() {
 		r.Set("requests_"+k, v)
 	}
 	r.Set("requests", total)
+	r.Set("requests_window_size_dimension", nSized)
+	{
+		var ws []string
+		for k, v := range wins {
+			ws = append(ws, fmt.Sprintf("%s: %d", k, v))
+		}
+		sort.Strings(ws)
+		r.Set("window_sizes", strings.Join(ws, "; "))
+		fs, fns := maxFloatSeconds()
+		r.Set("max_duration_parameters", fmt.Sprintf("seconds: %s (= %d ns); go format: 2562047h47m16.854775807s (= %d ns); list end: %s",
+			fs, fns, int64(math.MaxInt64), listEndMax.Format(time.RFC3339Nano)))
+	}
 	r.Set("bound_completed", fmt.Sprintf("%d of %d requests", handed, total))
 	r.Exhaustive = handed == total && *flagOne == ""
 	r.Assumptions = []string{
 		"absolute time of every unit = base + PTS exactly (no drift between clock and timestamps); PTS == DTS (no frame reordering)",
-		"H.264 and MPEG-4 audio tracks; segment/part durations 100/250-300 ms so that every corpus has several segments and parts",
-		"don't-cares: a sample within 25 us (one tick of either track + file-name microsecond truncation) of a window edge may be in or out; " +
+		"H.264 (90 kHz) and MPEG-4 audio (44.1, 48, 8 kHz) tracks; segment/part durations 100/250-300 ms so that every corpus has several segments and parts; the recordings are about 1 s long whatever the size of the requested window",
+		"don't-cares: a sample within one tick of its track + file-name microsecond truncation (25 us; 127 us for the 8 kHz track) of a window edge may be in or out; " +
 			"output timestamps are compared within 2 ticks; durations of the last sample of a track and of pre-roll samples are not compared; " +
 			"spans/clippings shorter than 3 ms may be present or absent, span edges are compared within 2 ms (header durations are in milliseconds)",
 		"get is required to serve the stream that contains the requested start; samples of a later stream (after a publisher restart) inside the window are optional, " +
-			"and nothing is required when the start lies in a gap or before the first recording",
+			"and nothing is required when the start lies in a gap or before the first recording (even 1 ns before the first sample of a stream: the server answers 404 there, as for any start in a gap)",
 		"the newest unit of every track at close time is held back by the recorder and is not part of the recorded media",
 	}
 	_ = os.RemoveAll(base)
@@ -435,7 +662,19 @@ func describe(c Case) string {
 		return time.Unix(0, ns).In(time.Local).Format("15:04:05.000000000")
 	}
 	if c.Kind == "list" {
+		switch {
+		case c.EndMax:
+			return fmt.Sprintf("list k%d start=%s end=%s", c.Corpus, f(c.StartNs), listEndMax.Format(time.RFC3339Nano))
+		case c.DurNs > 0:
+			return fmt.Sprintf("list k%d start=%s end=start+%s", c.Corpus, f(c.StartNs), time.Duration(c.DurNs))
+		}
 		return fmt.Sprintf("list k%d start=%s end=%s", c.Corpus, f(c.StartNs), f(c.EndNs))
+	}
+	switch {
+	case c.DurRaw != "":
+		return fmt.Sprintf("get k%d %s start=%s duration=%s", c.Corpus, c.Format, f(c.StartNs), c.DurRaw)
+	case c.DurNs > 0:
+		return fmt.Sprintf("get k%d %s start=%s duration=%s", c.Corpus, c.Format, f(c.StartNs), time.Duration(c.DurNs))
 	}
 	return fmt.Sprintf("get k%d %s start=%s duration=%s", c.Corpus, c.Format, f(c.StartNs), time.Duration(c.EndNs-c.StartNs))
 }
